@@ -233,3 +233,83 @@ class RaceRun:
         import sys
         print((r["f_bad"][0]["race_report"] if r["f_bad"] else "no race report this time (races are schedule dependent)"), file=sys.stderr if quiet else sys.stdout)
         return {"f": 0 if r["f_bad"] else None}
+
+class PanicMeta:
+    """C10 metamorphic check on the REAL code: 'later calls behave as if the panicking call had not happened'.
+    For every generated circuit history containing a run function that panicked, the history is re-run with that
+    call replaced by the passage of the same amount of time; every later op must answer identically."""
+    kind = "metamorphic"
+    name = "panic-meta"
+    def __init__(self, quick, thorough):
+        self.quick, self.thorough = quick, thorough
+    def _variants(self, cases_p, real_p):
+        cl, rl = read_lines(cases_p), read_lines(real_p)
+        out = []
+        for header, ops, (real,) in split_cases(cl, rl):
+            for i, (op, r) in enumerate(zip(ops, real)):
+                if op.startswith("exec ") and " run=panic" in op and " run=1 " in (" " + r + " ") and "res=panic:" in r and i + 1 < len(ops):
+                    kv = dict(t.split("=", 1) for t in op.split(" ") if "=" in t)
+                    adv = int(kv.get("radv", "0"))
+                    rk = dict(t.split("=", 1) for t in r.split(" ") if "=" in t)
+                    nread = 0 if rk.get("rd", "-") == "-" else len(rk["rd"].split(","))   # readings the panicking call consumed (none on a pass-through circuit)
+                    open_before = " open=1" in (" " + real[i - 1]) if i > 0 else False
+                    out.append({"header": header, "ops": ops, "idx": i, "tick": adv + nread, "variant": ops[:i] + ["tick %d" % (adv + nread)] + ops[i + 1:], "real": real, "open_before": open_before})
+                    break
+        return out
+    def run(self, ctx):
+        seqdiff = go_build("seqdiff")
+        wd = os.path.join(ctx.workdir, self.name)
+        n = (self.quick if ctx.tier == "quick" else self.thorough) * ctx.scale
+        res = {"name": self.name, "kind": self.kind, "evaluations": 0, "distinct_nontrivial": 0, "traces_validated": 0, "samples": [], "stats": {}, "k_bad": [], "f_bad": []}
+        rc, out = sh([seqdiff, "-suite", "circuit", "-seed", str(ctx.seed + 101), "-cases", str(n), "-out", wd], env=GOENV, timeout=3600)
+        if rc != 0: raise HarnessCrash([seqdiff], out)
+        vs = self._variants(os.path.join(wd, "circuit.cases"), os.path.join(wd, "circuit.real"))
+        vp = os.path.join(wd, "variants.cases")
+        with open(vp, "w") as f:
+            for v in vs:
+                f.write("case %s\n" % v["header"])
+                for o in v["variant"]: f.write(o + "\n")
+                f.write("end\n")
+        rc, out = sh([seqdiff, "-suite", "circuit", "-replay", vp, "-out", os.path.join(wd, "v")], env=GOENV, timeout=3600)
+        if rc != 0: raise HarnessCrash([seqdiff], out)
+        vreal = [r for _, _, (r,) in split_cases(read_lines(os.path.join(wd, "v", "circuit.cases")), read_lines(os.path.join(wd, "v", "circuit.real")))]
+        probes = 0
+        for v, vr in zip(vs, vreal):
+            res["evaluations"] += 1
+            i = v["idx"]
+            probe = v["open_before"] and "closer=hystrix" in v["header"]
+            probes += 1 if probe else 0
+            diff = next((j for j in range(i + 1, len(v["ops"])) if v["real"][j] != vr[j]), None)
+            if diff is None:
+                res["traces_validated"] += 1
+                if len(res["samples"]) < 2:
+                    res["samples"].append({"case": v["header"], "panicking_op": v["ops"][i], "later_ops_compared": len(v["ops"]) - i - 1})
+                continue
+            res["f_bad"].append({"component": self.name, "kind": "spec-violation", "seed": ctx.seed, "case": v["header"], "ops": v["ops"][:diff + 1], "first_bad_op": diff,
+                                 "what": "a later call answers differently with the panicking call than with the same time simply passing",
+                                 "with_panicking_call": v["real"][diff], "with_time_passing_instead": vr[diff], "panicking_op_index": i, "tick": v["tick"],
+                                 "signature": "F-C10-probe" if probe else None})
+        res["distinct_nontrivial"] = len(vs)
+        res["stats"] = {"histories_with_a_panicking_run": len(vs), "of_which_half_open_probes_with_hystrix_closer": probes}
+        # keep at most 2 per signature
+        seen = {}
+        res["f_bad"] = [b for b in res["f_bad"] if seen.setdefault(b["signature"], []).append(1) is None and len(seen[b["signature"]]) <= 2]
+        return res
+    def replay(self, item, ctx, quiet=False):
+        import sys
+        seqdiff = go_build("seqdiff")
+        wd = os.path.join(ctx.workdir, "replay-meta")
+        os.makedirs(wd, exist_ok=True)
+        i = item["panicking_op_index"]; ops = item["ops"]
+        kv = dict(t.split("=", 1) for t in ops[i].split(" ") if "=" in t)
+        variant = ops[:i] + ["tick %d" % item.get("tick", int(kv.get("radv", "0")) + 1)] + ops[i + 1:]
+        outs = []
+        for name, o in (("orig", ops), ("variant", variant)):
+            p = os.path.join(wd, name + ".cases")
+            with open(p, "w") as f:
+                f.write("case %s\n" % item["case"]); [f.write(x + "\n") for x in o]; f.write("end\n")
+            sh([seqdiff, "-suite", "circuit", "-replay", p, "-out", os.path.join(wd, name)], env=GOENV)
+            outs.append(read_lines(os.path.join(wd, name, "circuit.real"))[1:-1])
+        d = next((j for j in range(i + 1, len(ops)) if outs[0][j] != outs[1][j]), None)
+        print("panicking op:", ops[i], "\nfirst later op that differs:", (ops[d], outs[0][d], "VS", outs[1][d]) if d is not None else None, file=sys.stderr if quiet else sys.stdout)
+        return {"f": d}
